@@ -7,7 +7,7 @@ from ..sched import replay_case, run_case
 from ..spaces import all_prio, prog_of, shard_iter, single_selections
 
 ID = "C06"
-BUDGET = {"quick": 100, "thorough": 2400}
+BUDGET = {"quick": 100, "thorough": 900}
 MONITORS = [mon_c06]
 
 
@@ -52,8 +52,18 @@ def nontrivial(view):
     return None
 
 
+def all_cases(tier):
+    import itertools
+
+    from ..spaces import cross_families, foreign_quick_cases
+    its = [cases(tier), cross_families(tier)]
+    if tier != "quick":
+        its.append(foreign_quick_cases("c06"))
+    return itertools.chain(*its)
+
+
 def run_shard(tier, k, n, acc):
-    for c in shard_iter(cases(tier), k, n, acc):
+    for c in shard_iter(all_cases(tier), k, n, acc):
         run_case(acc, c, MONITORS, nontrivial)
 
 
